@@ -44,7 +44,7 @@ inline void putSpec(CaseText &t, const pw::FileSpec &fs) {
       std::string ps; for (auto &pg : cs.pages) ps += std::to_string(pg.end) + ":" + std::to_string(pg.encoding) + ":" + std::to_string(pg.version) + ",";
       t.put(p + "pages", ps);
       std::vector<long long> fl = {cs.dict, cs.dict_page_encoding, cs.dict_offset_present, cs.dict_extra_entries, cs.index_width_extra, cs.codec, cs.crc, cs.level_style, (long long)cs.seed, cs.page_stats, cs.chunk_stats,
-                                   cs.stats_mode, cs.def_level_encoding, cs.codec_tag_override, cs.extra_header_fields};
+                                   cs.stats_mode, cs.def_level_encoding, cs.codec_tag_override, cs.extra_header_fields, cs.codec_flavour};
       t.put_ints(p + "flags", fl);
     }
 }
@@ -70,7 +70,7 @@ inline pw::FileSpec getSpec(const CaseText &t) {
       for (auto &pgs : splitc(t.get(p + "pages"), ',')) { if (pgs.empty()) continue; auto f = splitc(pgs, ':'); pw::PageSpec pg; pg.end = (size_t)std::stoull(f.at(0)); pg.encoding = std::stoi(f.at(1)); pg.version = std::stoi(f.at(2)); cs.pages.push_back(pg); }
       auto fl = t.get_ints<long long>(p + "flags");
       cs.dict = fl.at(0); cs.dict_page_encoding = (int)fl.at(1); cs.dict_offset_present = fl.at(2); cs.dict_extra_entries = (int)fl.at(3); cs.index_width_extra = (int)fl.at(4); cs.codec = (int)fl.at(5); cs.crc = fl.at(6);
-      cs.level_style = (int)fl.at(7); cs.seed = (uint32_t)fl.at(8); cs.page_stats = fl.at(9); cs.chunk_stats = fl.at(10); cs.stats_mode = (int)fl.at(11); cs.def_level_encoding = (int)fl.at(12); cs.codec_tag_override = (int)fl.at(13); cs.extra_header_fields = (int)fl.at(14);
+      cs.level_style = (int)fl.at(7); cs.seed = (uint32_t)fl.at(8); cs.page_stats = fl.at(9); cs.chunk_stats = fl.at(10); cs.stats_mode = (int)fl.at(11); cs.def_level_encoding = (int)fl.at(12); cs.codec_tag_override = (int)fl.at(13); cs.extra_header_fields = (int)fl.at(14); cs.codec_flavour = fl.size() > 15 ? (int)fl.at(15) : 0;
       fs.row_groups[g].push_back(cs);
     }
   return fs;
@@ -86,7 +86,7 @@ struct Opts {
   bool thrift_extras = true; // unknown thrift fields in footer / page headers, kv metadata
   bool layouts = true;       // dictionary offset absent, wider index width, unused dictionary entries, level run plans
   bool crc = true;
-  int max_cols = 5, max_rgs = 3, max_rows = 40, max_pages = 6;
+  int max_cols = 5, max_rgs = 3, max_rows = 40, max_pages = 6, min_cols = 1;
   std::vector<int> types = {pq::BOOLEAN, pq::INT32, pq::INT64, pq::INT96, pq::FLOAT, pq::DOUBLE, pq::BYTE_ARRAY, pq::FIXED_LEN_BYTE_ARRAY};
   bool all_required = false;
   bool big = false;          // occasionally thousands of rows
@@ -98,12 +98,14 @@ inline rc::Gen<Bytes> valueGen(int type, int tl) {
   switch (type) {
     case pq::BOOLEAN: return rc::gen::map(rc::gen::element<uint8_t>(0, 1), [](uint8_t v) { return Bytes{v}; });
     case pq::INT32: return rc::gen::map(gen::int32Gen(), [le](int32_t v) { return le((uint32_t)v, 4); });
-    case pq::INT64: return rc::gen::map(gen::int64Gen(), [le](int64_t v) { return le((uint64_t)v, 8); });
+    // 8-byte values that read as "<footer length> PAR1" when a file is cut right behind them: lengths 0, 4, 0xFFFFFFF4..FF, 2^31
+    case pq::INT64: return rc::gen::weightedOneOf<Bytes>({{15, rc::gen::map(gen::int64Gen(), [le](int64_t v) { return le((uint64_t)v, 8); })},
+                                                          {1, rc::gen::map(rc::gen::element<uint64_t>(0x31524150FFFFFFFCull, 0x31524150FFFFFFF4ull, 0x31524150FFFFFFFFull, 0x3152415000000000ull, 0x3152415000000004ull, 0x3152415080000000ull, 0x315241507FFFFFFFull), [le](uint64_t v) { return le(v, 8); })}});
     case pq::FLOAT: return rc::gen::map(gen::f32bits(), [le](uint32_t v) { return le(v, 4); });
     case pq::DOUBLE: return rc::gen::map(gen::f64bits(), [le](uint64_t v) { return le(v, 8); });
     case pq::INT96: return fixedBytes(12);
     case pq::FIXED_LEN_BYTE_ARRAY: return fixedBytes((size_t)tl);
-    default: return rc::gen::weightedOneOf<Bytes>({{6, gen::bytesGen(24)}, {1, rc::gen::just(Bytes{'P', 'A', 'R', '1'})}, {1, rc::gen::map(irange(200, 400), [](int n) { Bytes b; for (int i = 0; i < n; i++) b.push_back((uint8_t)(i * 13)); return b; })}});
+    default: return rc::gen::weightedOneOf<Bytes>({{6, gen::bytesGen(24)}, {1, rc::gen::just(Bytes{'P', 'A', 'R', '1'})}, {1, rc::gen::element(Bytes{0xFC, 0xFF, 0xFF, 0xFF, 'P', 'A', 'R', '1'}, Bytes{0xF4, 0xFF, 0xFF, 0xFF, 'P', 'A', 'R', '1', 'x'}, Bytes{'a', 0xFF, 0xFF, 0xFF, 0xFF, 'P', 'A', 'R', '1'}, Bytes{0, 0, 0, 0, 'P', 'A', 'R', '1'})}, {1, rc::gen::map(irange(200, 400), [](int n) { Bytes b; for (int i = 0; i < n; i++) b.push_back((uint8_t)(i * 13)); return b; })}});
   }
 }
 // null pattern over n rows: 1 = present
@@ -127,7 +129,9 @@ inline pw::Node genSchema(const Opts &o) {
     n.name = (grp ? "g" : "c") + std::to_string(counter++);
     if (*irange(0, 19) == 0) n.name += "\xc3\xa9_x";   // non-ASCII name
     // names that are proper prefixes of one another, in any order (a lookup must compare whole names)
-    if (!grp && *irange(0, 5) == 0) { std::string alt = *rc::gen::element<std::string>("p", "pr", "price", "price_usd", "price_usd_x", "q", "qty_reserved", "qty"); if (used.insert(alt).second) n.name = alt; }
+    if (!grp && *irange(0, 5) == 0) { std::string alt = *rc::gen::element<std::string>("p", "pr", "price", "price_usd", "price_usd_x", "q", "qty_reserved", "qty", "id", "meta.id", "meta.rank", "a.b.c", "."); if (used.insert(alt).second) n.name = alt; }
+    // name lengths around the one- / two-byte varint boundary of the Thrift string length (127, 128, 129, 256, 16384)
+    if (*irange(0, 39) == 0) { std::string alt((size_t)*rc::gen::element(127, 128, 129, 255, 256, 384, 16383, 16384), (char)('a' + counter % 26)); if (used.insert(alt).second) n.name = alt; }
     n.rep = o.all_required ? pq::REQUIRED : (o.nested ? *rc::gen::element<int>(pq::REQUIRED, pq::OPTIONAL, pq::OPTIONAL, pq::REPEATED) : *rc::gen::element<int>(pq::REQUIRED, pq::OPTIONAL));
     if (grp) { n.group = true; int k = *irange(1, 3); for (int i = 0; i < k; i++) n.kids.push_back(mk(depth + 1)); }
     else {
@@ -138,7 +142,7 @@ inline pw::Node genSchema(const Opts &o) {
     }
     return n;
   };
-  int ncols = *irange(1, o.max_cols);
+  int ncols = *irange(o.min_cols, o.max_cols);
   for (int i = 0; i < ncols; i++) root.kids.push_back(mk(1));
   return root;
 }
@@ -187,7 +191,7 @@ inline pw::ChunkSpec genChunk(const Opts &o, const pw::Leaf &lf, size_t rows, in
   // pages: split points at record boundaries
   std::vector<size_t> bounds;
   for (size_t i = 1; i < cs.n; i++) if (!lf.max_rep || cs.rep[i] == 0) bounds.push_back(i);
-  int np = cs.n == 0 ? 0 : *rc::gen::weightedOneOf<int>({{3, rc::gen::just(1)}, {4, irange(2, o.max_pages)}});
+  int np = cs.n == 0 ? 0 : o.max_pages < 2 ? 1 : *rc::gen::weightedOneOf<int>({{3, rc::gen::just(1)}, {4, irange(2, o.max_pages)}});
   std::set<size_t> cuts;
   for (int i = 1; i < np && !bounds.empty(); i++) cuts.insert(bounds[(size_t)*irange(0, (int)bounds.size() - 1)]);
   cs.dict = o.dicts && lf.type != pq::BOOLEAN && *irange(0, 2) != 0;
@@ -197,12 +201,14 @@ inline pw::ChunkSpec genChunk(const Opts &o, const pw::Leaf &lf, size_t rows, in
   if (cs.n) { pw::PageSpec pg; pg.end = cs.n; pg.encoding = pageEnc(); cs.pages.push_back(pg); }
   cs.dict_page_encoding = *rc::gen::element<int>(pq::PLAIN, pq::PLAIN_DICTIONARY);
   cs.codec = codec;
+  cs.codec_flavour = *rc::gen::element(0, 0, 1);   // ZSTD: 1 = frame without content size (streaming writers)
   cs.crc = o.crc && *irange(0, 1);
   cs.seed = (uint32_t)*irange(1, 1 << 30);
   if (o.layouts) {
     cs.dict_offset_present = *irange(0, 5) != 0;
     cs.dict_extra_entries = *rc::gen::element(0, 0, 0, 1, 5);
-    cs.index_width_extra = *rc::gen::element(0, 0, 0, 1, 3);
+    cs.index_width_extra = *rc::gen::element(0, 0, 0, 0, 0, 0, 1, 3, 7, 9, 15, 16, 17, 23, 24, 31);   // index widths up to 32: run values of 1..4 bytes
+    if (*irange(0, 59) == 0) cs.dict_extra_entries = *rc::gen::element(250, 300, 65530, 65536, 70000);   // dictionaries past 8 / 16 bit indices
     cs.level_style = *rc::gen::element(0, 0, 1, 2, 2);
   }
   if (o.stats) { cs.page_stats = *irange(0, 3) == 0; cs.chunk_stats = *irange(0, 1); cs.stats_mode = *irange(0, 3); }
